@@ -211,9 +211,9 @@ StatsOf(I, m) ==
 
 ListingsOf(I, m) ==
     [ students  |-> [s \in S(I) |-> [p |-> m[s], l |-> IF m[s] = 0 THEN 0 ELSE I.plec[m[s]]]],
-      projects  |-> [p \in P(I) |-> [l |-> I.plec[p], who |-> SetToSortSeq(AssignedP(I, m, p), <),
+      projects  |-> [p \in P(I) |-> [l |-> I.plec[p], who |-> SortedSeqOf(AssignedP(I, m, p)),
                                      n |-> PCount(I, m, p), cap |-> I.puq[p]]],
-      lecturers |-> [l \in L(I) |-> [who |-> SetToSortSeq(AssignedL(I, m, l), <),
+      lecturers |-> [l \in L(I) |-> [who |-> SortedSeqOf(AssignedL(I, m, l)),
                                      n |-> LCount(I, m, l), cap |-> I.luq[l], target |-> I.lt[l]]] ]
 
 (* number of "- optimisation:" lines: criteria started before the run stopped *)
